@@ -255,6 +255,7 @@ func TestC16(t *testing.T) {
 			t.Fatal(err)
 		}
 		for _, src := range []string{"parsed", "arena", "proto-roundtrip", "built", "built-signed-data-size-unset", "chain-END-NUL-without-line-break", "chain-with-4th-block-and-NUL", "short-report-data-option",
+			"parsed+body-changed-after-signing", "arena+header-changed-after-signing", "parsed+qe-report-changed-after-signing", "parsed+signature-bit-flipped",
 			"option-mismatch:xfam", "option-mismatch:td_attributes", "option-mismatch:mr_td", "option-mismatch:min_tee_tcb_svn", "option-mismatch:any_mr_td", "option-mismatch:rtmr2"} {
 			var q *pb.QuoteV4
 			refused := false // the construction is one the checks (some of them) are expected to refuse: only the memory is compared
@@ -292,6 +293,33 @@ func TestC16(t *testing.T) {
 				pc.PckCertChain, pc.Size = chain, uint32(len(chain))
 				q.SignedData.CertificationData.Size += delta
 				q.SignedDataSize += delta
+				refused = true
+			case "parsed+body-changed-after-signing", "arena+header-changed-after-signing", "parsed+qe-report-changed-after-signing", "parsed+signature-bit-flipped":
+				// quotes that each signature check refuses, in the memory layouts that leave spare capacity behind the fields: the
+				// refusing branches (error texts, diagnostics) do not write either
+				if strings.HasPrefix(src, "arena") {
+					var arena []byte
+					q, arena = spread(w.Quote, 1+rng.IntN(300))
+					extra["arena"] = arena
+				} else {
+					rawc := append(make([]byte, 0, len(raw)+64), raw...)
+					any, err := abi.QuoteToProto(rawc)
+					if err != nil {
+						t.Fatal(err)
+					}
+					q = any.(*pb.QuoteV4)
+					extra["raw_input"] = rawc
+				}
+				switch {
+				case strings.HasSuffix(src, "body-changed-after-signing"):
+					q.TdQuoteBody.MrTd[3] ^= 0x10
+				case strings.HasSuffix(src, "header-changed-after-signing"):
+					q.Header.UserData[0] ^= 0x80
+				case strings.HasSuffix(src, "qe-report-changed-after-signing"):
+					q.SignedData.CertificationData.QeReportCertificationData.QeReport.MrSigner[1] ^= 1
+				default:
+					q.SignedData.Signature[5] ^= 0x04
+				}
 				refused = true
 			case "short-report-data-option", "option-mismatch:xfam", "option-mismatch:td_attributes", "option-mismatch:mr_td", "option-mismatch:min_tee_tcb_svn",
 				"option-mismatch:any_mr_td", "option-mismatch:rtmr2":
